@@ -25,7 +25,7 @@ func decodePrismValue(data []byte, pv *PrismValue) error {
 	if len(data) < 8+int(pv.Length) {
 		return ErrPrismExpectedMoreData
 	}
-	pv.Data = data[8 : 8+pv.Length]
+	pv.Data = data[8 : 8+int(pv.Length)]
 	return nil
 }
 
